@@ -4,7 +4,8 @@
      core/aggregated_bloom_filter.go      window = matrix (bloom bit x block); Insert / clear / BlocksForKeys
      core/running_event_filter.go         insert (+ persist and new window at ToBlock), onReorg (incl. the
                                           "running window is empty" branch), lazy initialisation
-                                          (InitializeRunningEventFilter: snapshot as-is / fill / rebuild)
+                                          (InitializeRunningEventFilter: the stored snapshot is consumed
+                                          = deleted when read, then snapshot as-is / fill / rebuild)
      blockchain/aggregated_bloom_filter_cache.go   window lookup: running window when the ranges match,
                                           else LRU cache, else fallback read of the persisted window (+ cache it)
      blockchain/event_matcher.go          candidate test on a window, exact match of address / keys
@@ -232,10 +233,22 @@ Definition init_rf (s : state) : list (N * window) * rstate :=
       end
   end.
 
+(* InitializeRunningEventFilter CONSUMES the stored snapshot: on a non-empty chain a snapshot that is read
+   successfully is deleted from the database (core.DeleteRunningEventFilter, a direct write) BEFORE it is
+   used as it is / filled in place / discarded for a rebuild, hence before any window write of the fill.
+   On an empty chain the function returns before reading the snapshot, which therefore stays. (The model
+   has no crash point inside the initialisation: a crash between the delete and the fill leaves "no
+   snapshot" + the persisted windows, i.e. the rebuild branch of the next start.) *)
+Definition init_snap (s : state) : option (window * N) :=
+  match chain s with
+  | [] => snapshot s
+  | _ => None
+  end.
+
 (* ensureInit *)
 Definition ensure (s : state) : state :=
   match running s with
-  | Uninit => let (p, r) := init_rf s in Build_state (chain s) p (snapshot s) r (cache s)
+  | Uninit => let (p, r) := init_rf s in Build_state (chain s) p (init_snap s) r (cache s)
   | _ => s
   end.
 
